@@ -10,6 +10,7 @@ INVARIANTS
   C07_Notif_EstablishedOpen
   C07_Notif_UnsupportedOptParam
   C07_Notif_KeepaliveLength
+  C07_Notif_OpenWhileIdle
   C07_Notif_ManualStopEarly
   C07_Notif_NoSpurious
   C07_Timer_OpenConfirm
